@@ -103,7 +103,12 @@ def run(prog: Program, res: Result) -> None:  # noqa: PLR0912, PLR0915
             if q.endswith("get_output_buffer"):
                 # carry: parent_buffer.size when the parent is limited
                 ok = ok and isinstance(limit, ast.BinOp) and isinstance(limit.op, ast.Sub)
-                carry_ok = any(isinstance(a, ast.Assign) and "parent_buffer.size" in norm(a.value) and "isinstance(parent_buffer, LimitedStringIO)" in norm(a.value) for a in ast.walk(f.node))
+                # the subtrahend - written in place or through a local - is the parent's size when the parent is a limited buffer
+                sub_ = limit.right if isinstance(limit, ast.BinOp) else None
+                if isinstance(sub_, ast.Name):
+                    defs_ = [a.value for a in ast.walk(f.node) if isinstance(a, ast.Assign) and any(isinstance(t_, ast.Name) and t_.id == sub_.id for t_ in a.targets)]
+                    sub_ = defs_[0] if len(defs_) == 1 else None
+                carry_ok = sub_ is not None and "parent_buffer.size" in norm(sub_, 300) and "isinstance(parent_buffer, LimitedStringIO)" in norm(sub_, 300)
                 ok = ok and carry_ok
             if ok:
                 res.ok("C06.R1", site, what, f"limit={txt}")
